@@ -145,8 +145,8 @@ def compare(res, ctx, lines, label, project=None, oracle=None, variant="asan", m
     res.add_cases(lines, nontrivial or (lambda l: True), rule or label)
     res.cov.setdefault("traces_validated_against_impl", 0)
     res.cov["traces_validated_against_impl"] += len(lines)
-    reported = 0
     crashes = 0
+    pending = []
     for i, l in enumerate(lines):
         h = hout[i] if i < len(hout) else "MISSING"
         m = mout[i] if i < len(mout) else "MISSING"
@@ -173,10 +173,15 @@ def compare(res, ctx, lines, label, project=None, oracle=None, variant="asan", m
         if bad:
             if found:
                 ctx.found_input = True
-            if reported < max_report:
-                reported += 1
-                res.violation(bad, [l], found_input=found,
-                              extra=["implementation: " + h[:3000], "model:          " + m[:3000]])
+            pending.append((not found, len(l), i, bad, found, l, h, m))
+    # report the smallest failing inputs first (those with a failing property oracle before mere
+    # model/implementation differences): the replay is the shortest scenario that failed
+    pending.sort()
+    res.cov.setdefault("failing_inputs_seen", 0)
+    res.cov["failing_inputs_seen"] += len(pending)
+    for _, _, _, bad, found, l, h, m in pending[:max_report]:
+        res.violation(bad, [l], found_input=found,
+                      extra=["implementation: " + h[:3000], "model:          " + m[:3000]])
     return hout, mout
 
 
@@ -506,6 +511,27 @@ def check_c20(res, ctx):
     for f, k in asm:
         ctx.found_input = True
         res.violation("inline assembly (%s) in %s" % (k, f), ["# witness: %s in %s" % (k, f)], found_input=True)
+    traps = parse_gen_pairs("Surface.lean", "trapInsns")
+    res.cov["trap_instructions"] = len(traps)
+    if traps:
+        # the theorem no_trap_instructions no longer holds: look for an input that reaches one
+        # (the process is then killed by a signal the library raised itself)
+        r = ctx.rng
+        lines = []
+        for _ in range(1500 if ctx.tier == "quick" else 20000):
+            b = bytes(gen.rphys(r).encode().b)
+            if r.random() < 0.5:
+                b = gen.mutate_random(r, b)[0]
+            lines.append("frw %s -" % b.hex())
+        for _ in range(500):
+            lines.append("full va %d %s" % (r.choice([0, 1, 2, 3]), gen.robj(r).script()))
+        hout = core.run_driver(ctx.h(), lines)
+        hit = [(l, h) for l, h in zip(lines, hout) if h.startswith("CRASH") and re.search(r"ILL|TRAP|Illegal|rc=-4\b|rc=-5\b|rc=132|rc=133", h)]
+        if hit:
+            ctx.found_input = True
+            l, h = min(hit, key=lambda x: len(x[0]))
+            res.violation("the library stops the process by itself (%s in %s) on this input: %s" % (traps[0][1], traps[0][0], h[:200]),
+                          [l], found_input=True)
 
 
 def check_c18(res, ctx):
@@ -515,7 +541,7 @@ def check_c18(res, ctx):
     for f, name, storage, const, refs in rows:
         for fn, kind in re.findall(r'\("([^"]+)", "([^"]+)"\)', refs):
             cases.append("%s:%s (%s) referenced in %s as %s" % (f, name, storage, fn, kind))
-            if kind not in ("read", "constarg"):
+            if kind not in ("read", "constarg", "unevaluated") and const != "true":
                 ctx.found_input = True
                 res.violation("variable %s in %s (%s) is accessed in %s with access kind '%s': mutable shared state" % (name, f, storage, fn, kind),
                               ["# witness: clang AST of %s: reference to %s in %s is neither a read nor an address passed to a const parameter" % (f, name, fn)],
